@@ -149,7 +149,7 @@ fn main() {
         "eval" => for_each_case(path, "CASE", |c| {
             n += 1;
             let prog: Vec<String> = c["prog"].as_array().unwrap().iter().map(|t| spell(t.as_str().unwrap()).to_string()).collect();
-            let text = prog.join(if n % 3 == 0 { "  " } else { " " });
+            let text = prog.join(if n % 3 == 0 { "  " } else if n % 3 == 1 { "\t" } else { " " });     // tokens are separated by blanks: any run of spaces or tabs
             let res = from_limbs(&c["res"]);
             let m = c["mode"].as_str().unwrap();
             let base = bases[n % 2];
@@ -231,6 +231,8 @@ fn main() {
                     sym.push_str(&format!("STACK CFI {:x} {}\n", addr, pairs.join(" ")));
                 }
             }
+            // a second INIT record that starts on the last byte of the first one overlaps it and is dropped: nothing changes for any look-up
+            if n % 4 == 0 { sym.push_str("STACK CFI INIT 1ff 20 .cfa: $rsp 800 + .ra: .cfa 8 - ^\n"); }
             let base = bases[n % 2];
             let mut any_ok = false;
             for e in c["exp"].as_array().unwrap() {
